@@ -12,6 +12,8 @@ TNext ==
     \/ Is("init") /\ n' = 0 /\ kind' = [i \in Acc |-> "R"] /\ grp' = [i \in Acc |-> 0]
          /\ st' = [i \in Acc |-> "none"] /\ Adv
     \/ Is("request") /\ Rec.i = n + 1 /\ Request(Rec.k) /\ Adv
+    \* the mutex object was move-assigned to another object: the request sequence simply continues
+    \/ Is("relocate") /\ Rec.after = n /\ UNCHANGED vars /\ Adv
     \/ Is("start") /\ Start(Rec.i) /\ Adv
     \/ Is("drop") /\ Drop(Rec.i) /\ Adv
     \/ Is("grant") /\ Grant(Rec.i, Rec.v) /\ Adv
